@@ -379,6 +379,9 @@ size_t WaveletTreeNoptrs::rank(uint symbol, size_t pos) const {
 
 size_t WaveletTreeNoptrs::select(uint symbol, size_t j) const {
   symbol = am->map(symbol);
+  // (a sequence whose only symbol is 0 has no levels)
+  if (height == 0)
+    return ((symbol == 0) && (j >= 1) && (j <= n)) ? j - 1 : (size_t)-1;
   uint mask = (1 << height) - 2;
   uint sum = 2;
   uint level = height - 1;
